@@ -27,6 +27,6 @@ DOpts == IF Rich THEN {x \in FewOpts \ PlainOpts : x.stable} ELSE FewOpts \ Plai
 Cases == {C(r, rq, x) : r \in Repos, rq \in Singles, x \in PlainOpts}
          \cup {C(r, rq, x) : r \in ExRepos, rq \in Exercised(Singles), x \in BOpts}
          \cup {C(r, rq, x) : r \in SmallRepos, rq \in Pairs, x \in PlainOpts}
-         \cup {C(r, rq, x) : r \in TinyRepos, rq \in Exercised(Pairs), x \in DOpts}
+         \cup {C(r, rq, x) : r \in TinyRepos, rq \in {p \in Exercised(Pairs) : Rich \/ ~Has(p[2], "caret")}, x \in DOpts}
 ASSUME ndJsonSerialize(IOEnv.OUT, SetToSeq(Cases))
 =========================================================================
